@@ -212,3 +212,29 @@ def run(ck, facts, tier):
                 else:
                     ck.violation(R, "make_solution:is_quantum_exceeded-branch", mk.where(x.get("ln")), "found %s" % sorted(sol))
         ck.floor(R, "interrupted-paths", n, 3)
+
+    R = "C11.SOLVE-ERRORS-PROPAGATE"
+    ck.rule(R, "K6-style error discipline: inside the recursive solver the result of proving / refuting / solving a (sub)goal "
+               "(Fulfill::prove, Fulfill::refute, solve_goal, solve_iteration, solve_from_clauses, solve_via_simplification, Fulfill::solve) "
+               "is never `unwrap()`ed / `expect()`ed: an obligation that was ambiguous a moment ago can come back `NoSolution` when the "
+               "caller's callback interrupted the first attempt (k-th invocation false, later ones true), and then the solve must return "
+               "an answer, not panic")
+    SOLVES = ("Fulfill::<I, Solver>::prove", "Fulfill::prove", "Fulfill::<I, Solver>::refute", "Fulfill::refute", "SolveDatabase::solve_goal",
+              "SolveIteration::solve_iteration", "SolveIterationHelpers::solve_from_clauses", "SolveIterationHelpers::solve_via_simplification",
+              "Fulfill::<I, Solver>::solve", "Fulfill::solve", "prove", "refute")
+    n_calls = 0
+    from kit import thir_all
+    for key, b in sorted(facts.bodies("chalk_recursive").items()):
+        if b.thir is None or "{" in key:
+            continue
+        for t in thir_all(facts, b):
+            n_calls += len([c for c in calls(t, SOLVES)])
+            for c in calls(t, ("Result::<T, E>::unwrap", "Result::<T, E>::expect", "Result::unwrap", "Result::expect")):
+                if c.get("args") and any(True for x in calls(c["args"][0], SOLVES)):
+                    inner = [x for x in calls(c["args"][0], SOLVES)][0]
+                    ck.violation(R, "%s:unwrap-of-%s" % (short(key), str(inner.get("fn", "")).split("::")[-1]), b.where(c.get("ln")),
+                                 "the result of %s is unwrapped: it can be Err(NoSolution) on a re-proof after an interrupted first attempt, "
+                                 "and the solver panics instead of answering" % str(inner.get("fn", "")).split("::")[-1])
+    ck.floor(R, "calls-that-solve-a-goal", n_calls, 6)
+    if not [v for v in ck.violations if v["rule"] == R]:
+        ck.ok(R, "recursive-solver:no-unwrap-on-solve-results", "%d solving call(s), none unwrapped" % n_calls)
